@@ -837,4 +837,18 @@ theorem legal_repair {α : Type} (W : WeaponProblem α) (emblem : Bool) (c c' : 
   have := this.2.2 he
   omega
 
+/-! ### hypothesis predicates of the property theorems -/
+
+/-- the hypothesis of `never_worse`: along every increment the optimizer may try (within the limits,
+    affordable) the value does not decrease -/
+def StepMonotone (P : Problem) : Prop :=
+  ∀ (s s' : State) (inc : List Nat), inc ∈ P.increments →
+    getSteppedTarget P.maxStep s inc = .ok (some s') → P.cost s' ≤ P.budget → P.value s ≤ P.value s'
+
+/-- pruning loses nothing: every legal triple is matched by a legal triple of useful lines -/
+def Dominated {α : Type} (W : WeaponProblem α) : Prop :=
+  ∀ w s e, Legal W false w → Legal W false s → Legal W true e →
+    ∃ w' s' e', LegalPruned W false w' ∧ LegalPruned W false s' ∧ LegalPruned W true e' ∧
+      W.reward w s e ≤ W.reward w' s' e'
+
 end Simaple.Proofs.Optimizer
